@@ -249,3 +249,28 @@ def iteration_can_skip(v, loop_ast, targets):
         seen.add(x)
         stack.extend(m for (m, l) in v.cfg.succ[x] if l != "exc" and m is not v.cfg.exit and m is not v.cfg.raise_exit)
     return False
+
+
+def edge_always_raises(v, cond, label):
+    """Taking edge (cond, label) inevitably ends in a `raise`: neither the normal exit of the function nor `cond` itself
+    (the next loop iteration) is reachable from it over normal edges."""
+    starts = [m for (m, l) in v.cfg.succ[cond] if l == label]
+    if not starts:
+        return False
+    seen, stack = set(), list(starts)
+    raised = False
+    while stack:
+        x = stack.pop()
+        if x in seen:
+            continue
+        seen.add(x)
+        if x is v.cfg.exit or x is cond:
+            return False
+        if x.kind == "stmt" and isinstance(x.ast, ast.Raise):
+            raised = True
+            continue
+        for m, l in v.cfg.succ[x]:
+            if l == "exc":
+                continue
+            stack.append(m)
+    return raised
